@@ -73,7 +73,7 @@ func (c *FuncCtx) rnodeFor(t Term, ty types.Type, st *State, depth int) *rnode {
 	if depth > 3 {
 		return nil
 	}
-	switch u := ty.Underlying().(type) {
+	switch u := under(ty).(type) {
 	case *types.Basic:
 		switch {
 		case u.Info()&types.IsInteger != 0:
@@ -127,7 +127,7 @@ func (c *FuncCtx) rnodeFor(t Term, ty types.Type, st *State, depth int) *rnode {
 		return n
 	case *types.Pointer:
 		var inner Term
-		if arr, ok := u.Elem().Underlying().(*types.Array); ok {
+		if arr, ok := under(u.Elem()).(*types.Array); ok {
 			s := c.sortOf(arr.Elem())
 			inner = sel(c.get(st, c.regElem(s)), t, arraySort(c.sc.idxSort(), s))
 		} else {
@@ -354,7 +354,7 @@ func (n *rnode) goLiteral(vals map[string]string, q types.Qualifier, ints *[]int
 		}
 		return fmt.Sprintf("%s{%s}", tyStr, strings.Join(parts, ", ")), true
 	case "struct":
-		st := n.ty.Underlying().(*types.Struct)
+		st := under(n.ty).(*types.Struct)
 		var parts []string
 		for i, e := range n.elems {
 			s, ok := e.goLiteral(vals, q, ints)
@@ -369,7 +369,7 @@ func (n *rnode) goLiteral(vals map[string]string, q types.Qualifier, ints *[]int
 		if !ok {
 			return "", false
 		}
-		et := types.TypeString(n.ty.Underlying().(*types.Pointer).Elem(), q)
+		et := types.TypeString(under(n.ty).(*types.Pointer).Elem(), q)
 		return fmt.Sprintf("func() *%s { v := %s; return &v }()", et, s), true
 	}
 	return "", false
@@ -485,11 +485,11 @@ func (g *goTr) tr(e CExpr) string {
 
 // deepCopyExpr returns a Go expression copying a value of type ty (for old()).
 func deepCopyExpr(name string, ty types.Type, q types.Qualifier) (string, bool) {
-	switch u := ty.Underlying().(type) {
+	switch u := under(ty).(type) {
 	case *types.Basic, *types.Array, *types.Struct:
 		return name, true
 	case *types.Slice:
-		if _, ok := u.Elem().Underlying().(*types.Slice); ok {
+		if _, ok := under(u.Elem()).(*types.Slice); ok {
 			return "", false
 		}
 		return fmt.Sprintf("append(%s(nil), %s...)", types.TypeString(ty, q), name), true
